@@ -88,6 +88,16 @@ def run(chk):
 
     # ---- R03.3 twins T8
     p2 = C.find_parser(w, C.S + "::update_partial_annotation")
+
+    fmt.text_scan_rule(chk, w, "R03.1", parser)
+    # ---- tag count taken after the last tag was recorded (both parsers)
+    for pfn in (parser, p2):
+        coll, counts, late = fmt.tag_count_order(w, pfn)
+        sh = pfn.split("::")[-1]
+        chk.ob("R03.3", "parser:%s:tag-count-after-last-tag" % sh, coll is not None and len(counts) == 1 and not late,
+               "%s: per-character tag lists in local %s, tag-count computations at %s, mutable borrows of the lists reachable after the count: %s; "
+               "the slot count must be taken after the pending tag of the last character has been appended, otherwise that character can hold more tags than slots" % (pfn, coll, counts, late),
+               site=C.site(C.body(w, pfn), late[0][1] if late else None), sample={"parser": sh, "counts": counts, "late": late})
     sig = {}
     for fn in (parser, p2):
         b = C.body(w, fn)
